@@ -762,6 +762,10 @@ func propC19Raw(t *rapid.T) {
 		rapid.Map(rapid.StringMatching(`[a-z ]{1,8}`), func(s string) string { return dir + "/" + s }),
 		rapid.SampledFrom([]string{"", ":", "://", "file:", "file://", "file:///", "%zz", "file://%zz", "FILE://localhost", "http://localhost/x", "\x00", "file://[::1"}),
 	).Draw(t, "rawPath")
+	// (inside the scratch directory, so that a string opened as a relative path shows)
+	if cwd, err := os.Getwd(); err == nil && os.Chdir(dir) == nil {
+		defer os.Chdir(cwd)
+	}
 	fds := countFDs(dir)
 	var ws zapcore.WriteSyncer
 	var closeFn func()
@@ -783,6 +787,12 @@ func propC19Raw(t *rapid.T) {
 		}
 	} else {
 		closeFn()
+		if u, perr := url.Parse(raw); perr == nil && u.Scheme != "" && !strings.EqualFold(u.Scheme, "file") {
+			// served by a registered factory (none of this process's factories creates files)
+			if fs := listFiles(dir); len(fs) != 0 {
+				t.Fatalf("Open(%q) with the scheme %q created %v: only file URLs and scheme-less paths name files", raw, u.Scheme, fs)
+			}
+		}
 	}
 	if countFDs(dir) != fds {
 		t.Fatalf("Open(%q): file descriptor leak (error=%v)", raw, err)
@@ -868,14 +878,17 @@ func propC19StdLog(t *rapid.T) {
 // propC19Registry: scheme and encoder name registration.
 var c19RegCounter int
 
+// c19Short: the one- and two-character scheme names registered by this process, with their factories' call counts.
+var c19Short = map[string]*int{}
+
 func propC19Registry(t *rapid.T) {
 	c19Mu.Lock()
 	defer c19Mu.Unlock()
 	ctlRegister(t)
 	c19RegCounter++
 	uniq := fmt.Sprintf("r%dx%dz", os.Getpid(), c19RegCounter)
-	kind := rapid.SampledFrom([]string{"valid", "valid-upper", "empty", "digit-first", "illegal", "nonascii", "duplicate", "duplicate-case"}).Draw(t, "nameKind")
-	var name string
+	kind := rapid.SampledFrom([]string{"valid", "valid-upper", "empty", "digit-first", "illegal", "nonascii", "duplicate", "duplicate-case", "one-letter", "two-letters"}).Draw(t, "nameKind")
+	var name, short string
 	wantOK := false
 	switch kind {
 	case "valid":
@@ -890,6 +903,15 @@ func propC19Registry(t *rapid.T) {
 		name = "a" + uniq + rapid.SampledFrom([]string{"_", " ", "/", ":", "%", "\x00", "*", "\n"}).Draw(t, "illegalChar")
 	case "nonascii":
 		name = rapid.SampledFrom([]string{"\u212a" + uniq, "\u017f" + uniq, "a" + uniq + "\u00e9", "\u0130" + uniq, "a" + uniq + "\xff", "a\u212a" + uniq}).Draw(t, "nonASCII")
+	case "one-letter", "two-letters":
+		// the shortest legal names (a letter; a letter and one of letter/digit/+/-/.): there are few of them and
+		// the registry lasts as long as the process, so a repeat is a duplicate served by its first factory
+		name = rapid.StringMatching(`[a-zA-Z]`).Draw(t, "letter")
+		if kind == "two-letters" {
+			name += rapid.StringMatching(`[a-z0-9+.-]`).Draw(t, "second")
+		}
+		short = strings.ToLower(name)
+		wantOK = c19Short[short] == nil
 	case "duplicate":
 		name = ctlScheme
 	case "duplicate-case":
@@ -897,9 +919,30 @@ func propC19Registry(t *rapid.T) {
 	}
 	made := 0
 	factory := func(u *url.URL) (zap.Sink, error) { made++; return &ctlSink{name: "new"}, nil }
+	if short != "" && wantOK {
+		cnt := new(int)
+		c19Short[short] = cnt
+		factory = func(u *url.URL) (zap.Sink, error) { made++; *cnt++; return &ctlSink{name: "new"}, nil }
+	}
 	err := zap.RegisterSink(name, factory)
 	if (err == nil) != wantOK {
 		t.Fatalf("RegisterSink(%q) error=%v, want success=%v", name, err, wantOK)
+	}
+	if short != "" && !wantOK {
+		// registered by an earlier case of this process: still served by THAT factory, in either case
+		before := *c19Short[short]
+		for _, sch := range []string{short, strings.ToUpper(short)} {
+			_, closeFn, oerr := zap.Open(sch + "://host/p")
+			if oerr != nil {
+				t.Fatalf("scheme %q, registered earlier as %q, is not usable: %v", sch, short, oerr)
+			}
+			closeFn()
+		}
+		if got := *c19Short[short] - before; got != 2 || made != 0 {
+			t.Fatalf("scheme %q registered earlier: its factory ran %d times for two Open calls (the rejected factory %d times)", short, got, made)
+		}
+		statCase("C19", true, "registry|"+kind+"|again", "registry "+kind)
+		return
 	}
 	if wantOK {
 		// visible immediately, case-insensitively
